@@ -15,7 +15,9 @@ def fd_str(d):
     if k == "i":
         return "(i %d %d)" % (d[1], d[2])
     if k == "v":
-        return "(v %s)" % " ".join(str(x) for x in d[1])
+        # half of the vectors go through the slice constructor (From<&[isize]>, the one infd uses), half through From<Vec>
+        tag = "s" if (sum(d[1]) + len(d[1])) % 2 == 0 else "v"
+        return "(%s %s)" % (tag, " ".join(str(x) for x in d[1]))
     raise ValueError(d)
 
 
